@@ -220,6 +220,11 @@ def regenerate_anchors():
     from . import anchors
 
     anchors.write(REPO, os.path.join(COQ, "theories", "Generated", "Anchors.v"))
+    # effect summaries of the public entry points (C20), translated from the source (fail-closed:
+    # on anything it cannot classify it writes a file that does not compile)
+    from . import anchors_effects
+
+    anchors_effects.regenerate(REPO, COQ)
 
 
 def coq_build(targets: list[str] | None = None, timeout=3000):
@@ -229,7 +234,7 @@ def coq_build(targets: list[str] | None = None, timeout=3000):
         fcntl.flock(lk, fcntl.LOCK_EX)
         regenerate_anchors()
         if targets:
-            rc, out = _sh("make Makefile.coq >/dev/null && timeout %d make -f Makefile.coq -j%d %s" % (
+            rc, out = _sh("make Makefile.coq >/dev/null && timeout %d make -f Makefile.coq -k -j%d %s" % (
                 timeout, NWORK, " ".join(targets)), timeout + 60, cwd=COQ)
         else:
             rc, out = _sh("timeout %d make -k -j%d" % (timeout, NWORK), timeout + 60, cwd=COQ)
@@ -508,7 +513,10 @@ def _main(prop, tier, seed, replay, tmpdir, t0):
         bad = scan_forbidden()
         if bad:
             raise BuildError("forbidden declarations: " + "; ".join(bad[:5]))
-        coq_build()
+        # build what this property needs (its theorem files, its oracle and their dependencies): an
+        # unrelated file that does not compile must not disturb this check
+        pfl = list(prop.PROPS) if isinstance(prop.PROPS, (list, tuple)) else [prop.PROPS]
+        coq_build(["theories/" + pf + "o" for pf in pfl] + ["theories/" + prop.ORACLE.replace(".", "/") + ".vo"])
         ths, ass = [], {}
         for pf in (prop.PROPS if isinstance(prop.PROPS, (list, tuple)) else [prop.PROPS]):
             t1, a1, _ = check_props(pf)
